@@ -1493,6 +1493,14 @@ emitdata(struct decl *d, struct init *init)
 			assert(cur->expr->kind == EXPRSTRING);
 			assert(init->expr->kind == EXPRCONST);
 			i = (init->start - cur->start) / cur->expr->type->base->size;
+			if (i >= cur->expr->u.string.size) {
+				/* element beyond the end of the literal: extend the data with the zeros that follow it */
+				size_t w = cur->expr->type->base->size, n = (cur->end - cur->start) / w;
+
+				cur->expr->u.string.data = xreallocarray(cur->expr->u.string.data, n, w);
+				memset((char *)cur->expr->u.string.data + cur->expr->u.string.size * w, 0, (n - cur->expr->u.string.size) * w);
+				cur->expr->u.string.size = n;
+			}
 			switch (cur->expr->type->base->size) {
 			case 1: ((unsigned char *)cur->expr->u.string.data)[i]  = init->expr->u.constant.u; break;
 			case 2: ((uint_least16_t *)cur->expr->u.string.data)[i] = init->expr->u.constant.u; break;
